@@ -150,6 +150,18 @@ class ContentElement:
     if self.parent() is not None:
       raise RuntimeError("Element must be removed from parent first")
 
+    owner = self.get_doc()
+
+    if doc is None and owner is not None:
+
+      # the body and the regions of a document belong to it
+
+      if isinstance(owner, ContentDocument) and owner.get_body() is self:
+        raise RuntimeError("The body of a document must be removed from the document first")
+
+      if isinstance(self, Region) and owner.get_region(self.get_id()) is self:
+        raise RuntimeError("A region of a document must be removed from the document first")
+
     if doc is not None:
 
       # attaching
@@ -745,10 +757,9 @@ class Rtc(ContentElement):
 
     if isinstance(self.first_child(), Rt):
       expect = (Rt,)
-    elif isinstance(self.first_child(), Rp) and self.first_child() is self.last_child():
-      # only the opening rp is present
-      expect = (Rt,)
-    elif isinstance(self.first_child(), Rp) and isinstance(self.last_child(), Rp):
+    elif isinstance(self.first_child(), Rp) and isinstance(self.last_child(), Rp) \
+        and self.first_child() is not self.last_child():
+      # both the opening and the closing rp are present
       expect = (type(None),)
     else:
       expect = (Rt, Rp)
@@ -770,7 +781,7 @@ class Rtc(ContentElement):
 
     cs = list(self) + children
 
-    if len(cs) > 2 and isinstance(cs[0], Rp) and isinstance(cs[-1], Rp):
+    if len(cs) >= 2 and isinstance(cs[0], Rp) and isinstance(cs[-1], Rp):
       cs = cs[1:-1]
 
     if not all(isinstance(x, Rt) for x in cs):
